@@ -77,6 +77,10 @@ FILLERS = {"decl": "var Injected_%d = 1", "field": "Injected_%d int", "method": 
 
 def payload_text(breakout, filler, n):
     """break out of the context with the abstract payload, place the filler, re-enter the context"""
+    if len(breakout) == 2 and breakout[0] == breakout[1] and breakout[0] not in ("NL", "CRLF"):
+        # the same break-out token twice: a harmless first occurrence, then the real payload (an escaper that only
+        # defuses the first occurrence lets the second through)
+        return "zz" + TOK[breakout[0]] + " yy " + payload_text(breakout[:1], filler, n)
     b = "".join(TOK[t] for t in breakout)
     f = FILLERS[filler] % n
     if all(t in ("NL", "CRLF") for t in breakout):
@@ -265,6 +269,8 @@ def check(run, replay=None):
     # mixes of the two line terminators (an escaper that normalises one of them must not let the other through)
     if ["NL"] in breakouts and ["CRLF"] in breakouts:
         breakouts += [["CRLF", "NL"], ["NL", "CRLF"]]
+    # the same token twice (an escaper must defuse every occurrence, not the first one)
+    breakouts += [[b[0], b[0]] for b in list(breakouts) if len(b) == 1 and b[0] in ("STARSLASH", "BQ", "DQ")]
     base = base_spec()
     all_sites = sites(base)
     combos = []
